@@ -362,7 +362,11 @@ def _sparse_like(node):
 
 
 def _const_like(node):
-    return node["k"] in ("scalar", "dense") or (node["k"] == "neg" and node["c"]["k"] == "dense")
+    # Scalar.__neg__ / DenseArray.__neg__ return a Scalar / DenseArray again (no composite
+    # operator), so a (nested) minus of a constant is a constant for the rejection rule
+    if node["k"] == "neg":
+        return _const_like(node["c"])
+    return node["k"] in ("scalar", "dense")
 
 
 def valid(tree):
